@@ -20,7 +20,7 @@ for d in "$@"; do
      git apply --3way $d/patch.diff 2>>$log || { echo "$id: patch.diff does not apply" | tee -a $log; continue; }
   fi
   timeout 2400 cargo test --offline >>$log.full 2>&1; r2=$?
-  fails=$(grep -E "^test .* FAILED" $log.full | grep -v "^test result" | sed 's/ \.\.\. FAILED//; s/^test //' | sort | tr '\n' ' ')
+  fails=$(grep -E "^test .* FAILED" $log.full | grep -v "^test result" | grep -oE "^test [A-Za-z0-9_:]+" | sed 's/^test //' | sort -u | tr '\n' ' ')
   res=$(grep -E "^test result" $log.full | tail -1)
   echo "$id: demo-alone rc=$r1 [$p1] ; with-patch: [$res] fails: $fails" | tee -a /tmp/confirm-summary.txt
   ok=no
